@@ -1539,6 +1539,7 @@ class TrS:
         self.helpers = helpers or {}          # name -> (number of in-parameters, number of out-parameters, returns an item)
         self.outs, self.ret_item = list(outs), ret_item
         self.in_tail = 0
+        self.used_dowhile = False
         self.n = 0
         self.nloop = 0
         self.loops = []
@@ -1768,6 +1769,7 @@ class TrS:
                         cont(self.restrict(env1, env), ind1 + "  "))
             return self.run([init] if init else [], dict(env), ind, after_init)
         if k == "dowhile":
+            self.used_dowhile = True
             body, c = s[1], s[2]
             items = [n for n, v in env.items() if v[0] == "item" and v[1]]
             if False:
@@ -1844,6 +1846,12 @@ def generate_sort(repo, out_path):
             parts += [f"def {name} (lt : α → α → Bool) (fuel : Nat) (p : GHeap α) ({ps} : Nat) : Option ({rty}) :="] + lines + [""]
             helpers[name] = (len(ins), len(outs), ritem)
         summary.append(f"{fn}:{len(stmts)} stmts/{len(tr.loops)} loop(s)")
+        if rec:
+            dw = (not helpers) and tr.used_dowhile and len(tr.loops) == 1
+            parts += ["/-- the shape of `QuickSort::sort` in the header: one do-while partition loop inside `sort` and two recursive calls",
+                      "    (the spelling for which `gen_sort_exact` states the fault-for-fault equality with the model) -/",
+                      f"def sortIsDoWhile : Bool := {'true' if dw else 'false'}", ""]
+            summary.append("do-while shape" if dw else "other shape (helpers / for loops)")
     # the public sort(): early return for 0 / 1 element, then QuickSort::sort(_begin.item, endItem.prev)
     pub = re.sub(r"\s+", "", extract(src, "List::sort()", r"void\s+sort\s*\(\s*\)"))
     if not (pub.startswith("if(endItem.prev==0||_begin.item==endItem.prev)return;structQuickSort{") and
